@@ -35,7 +35,11 @@ Negative control (never asserted equal): a third twin runs op() inside
 twin B in at least one case (``negative_control_differs``), which shows that the
 histories really leave observable pending state.
 
-Guards: a many-to-one lazy load or a get() served from the identity map emits no statement
+Guards: for a lazy-load read the attribute is unloaded at the moment of the read in *both*
+twins: the explicit flush of twin B can load it as a side effect of its own cascade loads
+(mapper-level eager loaders run there, before the DELETEs), after which the read would be
+served from memory with the documented stale-collection semantics - twin B expires it
+again after the flush.  A many-to-one lazy load or a get() served from the identity map emits no statement
 and therefore does not autoflush (by design): such reads are counted
 (``reads_without_sql`` / ``skipped_get-of-present-identity``) and not judged; lazy loads
 are issued only from persistent objects (a lazy load on a *pending*
@@ -551,6 +555,18 @@ def run_twin(sa, orm, R, zoo, engine, spy, hist, rd, mode):
                 return out
         out["flush_log"] = stmts(spy.since(m0, kinds=("execute", "executemany")))
         out["flush_dml"] = flat_dml(spy.since(m0, kinds=("execute", "executemany")))
+        if mode == "explicit" and rd["kind"] == "lazy":
+            # "the same read" must be a lazy load in both twins: the explicit flush may
+            # itself have loaded the attribute as a side effect (its cascade loads run
+            # mapper-level eager loaders, e.g. delete T -> load T.owners -> A.tags joined),
+            # *before* its DELETEs - the read would then be served from memory with the
+            # documented stale-collection semantics and emit nothing.  The attribute is
+            # unloaded again, as it was when twin A started its read.
+            o = objs[(rd["cls"], rd["pk"])]
+            if rd["rel"] in o.__dict__ and sa.inspect(o).persistent:
+                out["reexpired_after_flush"] = True
+                with s.no_autoflush:
+                    s.expire(o, [rd["rel"]])
         m1 = spy.mark()
         try:
             if control == "no_autoflush_block":
@@ -709,6 +725,8 @@ def one_case(ctx, sa, orm, R, zoo, engines, spies, hist, rd, ctl, origin):
                               f"{[got.get(k) for k in wrong]} (present?) but delete/re-add history says {[exp_presence[k] for k in wrong]}",
                               dict(witness, twin_a=a, twin_b=b))
                 return
+    if b.get("reexpired_after_flush"):
+        ctx.count("lazy_attr_loaded_by_flush_reexpired")
     ctx.count("cases_compared")
     if "error" in a:
         ctx.count("both_raised")
